@@ -798,12 +798,12 @@ theorem probe_good {m : M} (a : Nat) (hg : Good m) :
   · have := probe_held hg ha; simpa [answerOf, ha] using this
 
 /-- the observation made in a settled state -/
-theorem observe_good {m : M} (seen : List Nat) (res : String) (hg : Good m) :
-    (observe seen m res none none).2.2 =
+theorem observe_good {m : M} (seen : List Nat) (res : String) (mid str : Option String) (hg : Good m) :
+    (observe seen m res mid str).2.2 =
       { res := res, fd1 := m.fds 1, fd2 := m.fds 2, sk1 := (rename seen m 1).2, sk2 := (rename (rename seen m 1).1 m 2).2,
-        p1 := answerOf m 1, p2 := answerOf m 2, mid := none, str := none } ∧
-    (observe seen m res none none).2.1 = (rename (rename seen m 1).1 m 2).1 ∧
-    Good (observe seen m res none none).1 ∧ ProbeFrame m (observe seen m res none none).1 := by
+        p1 := answerOf m 1, p2 := answerOf m 2, mid := mid, str := str } ∧
+    (observe seen m res mid str).2.1 = (rename (rename seen m 1).1 m 2).1 ∧
+    Good (observe seen m res mid str).1 ∧ ProbeFrame m (observe seen m res mid str).1 := by
   obtain ⟨a1, g1, f1⟩ := probe_good 1 hg
   obtain ⟨a2, g2, f2⟩ := probe_good 2 g1
   have hans : answerOf (probe m 1).1 2 = answerOf m 2 := by simp [answerOf, f1.cur]
@@ -883,7 +883,123 @@ theorem addrLaw_ok {busy : List Nat} {m m1 : M} {seen seen1 : List Nat} {g : Nat
 
 open Casket.ReloadSpec
 
-theorem toString_ne_dash : True := trivial
+/-- what the judge requires of the answer to the request in flight and to the fresh connection made during the reload -/
+def inflightOK (led : HLedger) (op : HOp) (isValid : Bool) (g : Nat) (mid str : Option String) : Prop :=
+  match op with
+  | .reload _ => mid = none ∧ str = none
+  | .straddle c => str = some (if led.addrs.contains 1 then toString led.gen else "-") ∧
+      mid = some (if isValid then (if c.addrs.contains 1 then toString g else "-") else led.prev.p1)
+
+/-- the observation after an operation whose configuration is NOT valid for the environment, made in a settled state
+that kept the current instance: it satisfies the judge, and the ledger stays in step -/
+theorem judge_invalid {busy : List Nat} {m m1 : M} {seen : List Nat} {g : Nat} {led : HLedger}
+    (h : HRel busy m seen g led) (op : HOp) (hv : valid busy op.cfg = false)
+    (g1 : Good m1) (hcur : m1.cur = m.cur) (hbusy : m1.busy = m.busy)
+    (hsock : ∀ a, m.cur.holds a = true → m1.sock a = m.sock a)
+    (hsl : ∀ a, a = 1 ∨ a = 2 → m1.sock a < m1.nextSock) (hnext : m.nextSock ≤ m1.nextSock)
+    (mid str : Option String) (hin : inflightOK led op false g mid str) :
+    stepLaw busy led op (observe seen m1 "err" mid str).2.2 = none ∧
+    HRel busy (observe seen m1 "err" mid str).1 (observe seen m1 "err" mid str).2.1 (g + 1)
+      (advance busy led op (observe seen m1 "err" mid str).2.2) := by
+  have hg := h.good
+  have hfd : ∀ a, m1.fds a = m.fds a := by intro a; rw [good_fds g1 a, good_fds hg a, hcur]
+  obtain ⟨o1, o2, o3, o4⟩ := observe_good seen "err" mid str g1
+  have hn1 : NamedIn seen m1 1 led.prev.sk1 :=
+    named_congr' (hfd 1) (fun hne => hsock 1 (by
+      have := good_fds hg 1; cases hc : m.cur.holds 1
+      · rw [hc] at this; exact absurd this hne
+      · rfl)) h.sk1
+  have hn2 : NamedIn seen m1 2 led.prev.sk2 :=
+    named_congr' (hfd 2) (fun hne => hsock 2 (by
+      have := good_fds hg 2; cases hc : m.cur.holds 2
+      · rw [hc] at this; exact absurd this hne
+      · rfl)) h.sk2
+  have e1 := named_rename hn1
+  have e2 := named_rename hn2
+  have ha1 : answerOf m1 1 = answerOf m 1 := by simp [answerOf, hcur]
+  have ha2 : answerOf m1 2 = answerOf m 2 := by simp [answerOf, hcur]
+  have hobs : (observe seen m1 "err" mid str).2.2 =
+      { res := "err", fd1 := m.fds 1, fd2 := m.fds 2, sk1 := led.prev.sk1, sk2 := led.prev.sk2,
+        p1 := answerOf m 1, p2 := answerOf m 2, mid := mid, str := str } := by
+    simp only [o1, hfd, e1, e2, ha1, ha2]
+  have hseen : (observe seen m1 "err" mid str).2.1 = seen := by
+    simp only [o2, e1, e2]
+  rw [hobs, hseen]
+  constructor
+  · cases op with
+    | reload c =>
+      obtain ⟨rfl, rfl⟩ := hin
+      simp only [HOp.cfg] at hv
+      simp [stepLaw, HOp.cfg, hv, h.fd1, h.fd2, h.p1, h.p2]
+    | straddle c =>
+      obtain ⟨rfl, rfl⟩ := hin
+      simp only [HOp.cfg] at hv
+      simp [stepLaw, HOp.cfg, hv, h.fd1, h.fd2, h.p1, h.p2]
+  · have hadv : advance busy led op { res := "err", fd1 := m.fds 1, fd2 := m.fds 2, sk1 := led.prev.sk1, sk2 := led.prev.sk2, p1 := answerOf m 1, p2 := answerOf m 2, mid := mid, str := str }
+        = { led with prev := { res := "err", fd1 := m.fds 1, fd2 := m.fds 2, sk1 := led.prev.sk1, sk2 := led.prev.sk2, p1 := answerOf m 1, p2 := answerOf m 2, mid := mid, str := str }, next := led.next + 1 } := by
+      simp [advance, hv]
+    rw [hadv]
+    refine ⟨o3, by rw [o4.busy, hbusy]; exact h.busyEq, by rw [o4.cur, hcur]; exact h.gen,
+      by rw [o4.cur, hcur]; exact h.addrs, by simp [h.next], by rw [o4.cur, hcur]; have := h.lt; omega,
+      by rw [o4.fds]; exact (hfd 1).symm, by rw [o4.fds]; exact (hfd 2).symm,
+      by simp [answerOf, o4.cur, hcur], by simp [answerOf, o4.cur, hcur],
+      named_congr (by rw [o4.fds]) (by rw [o4.sock]) hn1, named_congr (by rw [o4.fds]) (by rw [o4.sock]) hn2,
+      fun x hx => by rw [o4.nextSock]; exact Nat.lt_of_lt_of_le (h.seenLt x hx) hnext,
+      fun a ha => by rw [o4.sock, o4.nextSock]; exact hsl a ha⟩
+
+/-- the observation after an operation whose configuration is valid for the environment, made in the settled state of the
+new generation -/
+theorem judge_valid {busy : List Nat} {m m1 : M} {seen : List Nat} {g : Nat} {led : HLedger}
+    (h : HRel busy m seen g led) (op : HOp) (hv : valid busy op.cfg = true)
+    (g1 : Good m1) (hgen : m1.cur.gen = g) (haddrs : m1.cur.addrs = op.cfg.addrs) (hbusy : m1.busy = m.busy)
+    (hks : ∀ a, a ∈ op.cfg.addrs → m.cur.holds a = true → m1.sock a = m.sock a)
+    (hsl : ∀ a, a = 1 ∨ a = 2 → m1.sock a < m1.nextSock) (hnext : m.nextSock ≤ m1.nextSock)
+    (mid str : Option String) (hin : inflightOK led op true g mid str) :
+    stepLaw busy led op (observe seen m1 "ok" mid str).2.2 = none ∧
+    HRel busy (observe seen m1 "ok" mid str).1 (observe seen m1 "ok" mid str).2.1 (g + 1)
+      (advance busy led op (observe seen m1 "ok" mid str).2.2) := by
+  have hg := h.good
+  obtain ⟨o1, o2, o3, o4⟩ := observe_good seen "ok" mid str g1
+  obtain ⟨n1, l1, hl1, hl1m⟩ := rename_named seen m1 1
+  obtain ⟨n2, l2, hl2, hl2m⟩ := rename_named (rename seen m1 1).1 m1 2
+  have law1 := addrLaw_ok (busy := busy) (seen := seen) (seen1 := seen) (led := led) (a := 1) (prevSk := led.prev.sk1)
+    g1 hgen haddrs h.addrs hg h.sk1 (hks 1)
+  have law2 := addrLaw_ok (busy := busy) (seen := seen) (seen1 := (rename seen m1 1).1) (led := led) (a := 2)
+    (prevSk := led.prev.sk2) g1 hgen haddrs h.addrs hg (by rw [hl1]; exact named_ext l1 h.sk2) (hks 2)
+  rw [o1, o2]
+  constructor
+  · cases op with
+    | reload c =>
+      obtain ⟨rfl, rfl⟩ := hin
+      simp only [HOp.cfg] at hv law1 law2
+      simp only [stepLaw, HOp.cfg, hv, h.next, law1, law2]
+      simp
+    | straddle c =>
+      obtain ⟨rfl, rfl⟩ := hin
+      simp only [HOp.cfg] at hv law1 law2
+      simp only [stepLaw, HOp.cfg, hv, h.next, law1, law2, h.gen, h.addrs]
+      simp
+  · have hadv : advance busy led op { res := "ok", fd1 := m1.fds 1, fd2 := m1.fds 2, sk1 := (rename seen m1 1).2, sk2 := (rename (rename seen m1 1).1 m1 2).2, p1 := answerOf m1 1, p2 := answerOf m1 2, mid := mid, str := str }
+        = { gen := led.next, addrs := op.cfg.addrs, prev := { res := "ok", fd1 := m1.fds 1, fd2 := m1.fds 2, sk1 := (rename seen m1 1).2, sk2 := (rename (rename seen m1 1).1 m1 2).2, p1 := answerOf m1 1, p2 := answerOf m1 2, mid := mid, str := str }, next := led.next + 1 } := by
+      simp [advance, hv]
+    rw [hadv]
+    have n1' : NamedIn (rename (rename seen m1 1).1 m1 2).1 m1 1 (rename seen m1 1).2 := by
+      rw [hl2]; exact named_ext l2 n1
+    refine ⟨o3, by rw [o4.busy, hbusy]; exact h.busyEq, by rw [o4.cur, hgen]; exact h.next,
+      by rw [o4.cur, haddrs], by simp [h.next], by rw [o4.cur, hgen]; omega,
+      by rw [o4.fds], by rw [o4.fds],
+      by simp [answerOf, o4.cur], by simp [answerOf, o4.cur],
+      named_congr (m := m1) (by rw [o4.fds]) (by rw [o4.sock]) n1',
+      named_congr (m := m1) (by rw [o4.fds]) (by rw [o4.sock]) n2, ?_,
+      fun a ha => by rw [o4.sock, o4.nextSock]; exact hsl a ha⟩
+    intro x hx
+    rw [o4.nextSock]
+    rw [hl2, hl1] at hx
+    rcases List.mem_append.mp hx with hx | hx
+    · rcases List.mem_append.mp hx with hx | hx
+      · exact Nat.lt_of_lt_of_le (h.seenLt x hx) hnext
+      · rw [hl1m x hx]; exact hsl 1 (Or.inl rfl)
+    · rw [hl2m x hx]; exact hsl 2 (Or.inr rfl)
 
 /-- one plain reload of the hand-over stream: the observation satisfies the judge and the ledger stays in step -/
 theorem reload_op_ok {busy : List Nat} {m : M} {seen : List Nat} {g : Nat} {led : HLedger} (h : HRel busy m seen g led)
@@ -897,113 +1013,23 @@ theorem reload_op_ok {busy : List Nat} {m : M} {seen : List Nat} {g : Nat} {led 
     intro a ha; rw [← hm1]; exact sockLt_run _ a (h.sockLt a ha)
   have hsr : SockRel m m1 := by rw [← hm1]; exact sockRel_run _ m
   cases hv : valid busy c
-  · -- the configuration is not valid for the environment: nothing changes
-    obtain ⟨g1, hcur, hbusy, _, _, hsock⟩ := reload_invalid (g := g) hg h.lt (by rw [h.busyEq]; exact hv)
+  · obtain ⟨g1, hcur, hbusy, _, _, hsock⟩ := reload_invalid (g := g) hg h.lt (by rw [h.busyEq]; exact hv)
     rw [hm1] at g1 hcur hbusy hsock
-    have hfd : ∀ a, m1.fds a = m.fds a := by intro a; rw [good_fds g1 a, good_fds hg a, hcur]
     have hres : resOf m1 g = "err" := by
       have : ¬ m1.cur.gen = g := by rw [hcur]; have := h.lt; omega
       simp [resOf, this]
-    obtain ⟨o1, o2, o3, o4⟩ := observe_good seen "err" g1
-    have hn1 : NamedIn seen m1 1 led.prev.sk1 :=
-      named_congr' (hfd 1) (fun hne => hsock 1 (by
-        have := good_fds hg 1; cases hc : m.cur.holds 1
-        · rw [hc] at this; exact absurd this hne
-        · rfl)) h.sk1
-    have hn2 : NamedIn seen m1 2 led.prev.sk2 :=
-      named_congr' (hfd 2) (fun hne => hsock 2 (by
-        have := good_fds hg 2; cases hc : m.cur.holds 2
-        · rw [hc] at this; exact absurd this hne
-        · rfl)) h.sk2
-    have e1 := named_rename hn1
-    have e2 := named_rename hn2
-    have ha1 : answerOf m1 1 = answerOf m 1 := by simp [answerOf, hcur]
-    have ha2 : answerOf m1 2 = answerOf m 2 := by simp [answerOf, hcur]
-    have hobs : (runOp g seen m (.reload c)).2.2 =
-        { res := "err", fd1 := m.fds 1, fd2 := m.fds 2, sk1 := led.prev.sk1, sk2 := led.prev.sk2,
-          p1 := answerOf m 1, p2 := answerOf m 2, mid := none, str := none } := by
-      simp only [runOp, hm1, hres, o1, hfd, e1, e2, ha1, ha2]
-    have hseen : (runOp g seen m (.reload c)).2.1 = seen := by
-      simp only [runOp, hm1, hres, o2, e1, e2]
-    have hstate : (runOp g seen m (.reload c)).1 = (observe seen m1 "err" none none).1 := by
-      simp only [runOp, hm1, hres]
-    rw [hobs, hseen, hstate]
-    constructor
-    · simp [stepLaw, HOp.cfg, hv, h.fd1, h.fd2, h.p1, h.p2]
-    · have hadv : advance busy led (.reload c) { res := "err", fd1 := m.fds 1, fd2 := m.fds 2, sk1 := led.prev.sk1, sk2 := led.prev.sk2, p1 := answerOf m 1, p2 := answerOf m 2, mid := none, str := none }
-          = { led with prev := { res := "err", fd1 := m.fds 1, fd2 := m.fds 2, sk1 := led.prev.sk1, sk2 := led.prev.sk2, p1 := answerOf m 1, p2 := answerOf m 2, mid := none, str := none }, next := led.next + 1 } := by
-        simp [advance, HOp.cfg, hv]
-      rw [hadv]
-      refine ⟨o3, by rw [o4.busy, hbusy]; exact h.busyEq, by rw [o4.cur, hcur]; exact h.gen,
-        by rw [o4.cur, hcur]; exact h.addrs, by simp [h.next], by rw [o4.cur, hcur]; have := h.lt; omega,
-        by rw [o4.fds]; exact (hfd 1).symm, by rw [o4.fds]; exact (hfd 2).symm,
-        by simp [answerOf, o4.cur, hcur], by simp [answerOf, o4.cur, hcur],
-        named_congr (by rw [o4.fds]) (by rw [o4.sock]) hn1, named_congr (by rw [o4.fds]) (by rw [o4.sock]) hn2,
-        fun x hx => by rw [o4.nextSock]; exact Nat.lt_of_lt_of_le (h.seenLt x hx) hsr.next,
-        fun a ha => by rw [o4.sock, o4.nextSock]; exact hsl a ha⟩
-  · -- the configuration is valid: the new generation takes over
-    obtain ⟨g1, hgen, haddrs, hbusy, _, _⟩ := reload_valid (g := g) hg h.lt (by rw [h.busyEq]; exact hv)
+    have := judge_invalid h (.reload c) hv g1 hcur hbusy hsock hsl hsr.next none none ⟨rfl, rfl⟩
+    simpa only [runOp, hm1, hres] using this
+  · obtain ⟨g1, hgen, haddrs, hbusy, _, _⟩ := reload_valid (g := g) hg h.lt (by rw [h.busyEq]; exact hv)
     have hks : ∀ a, a ∈ c.addrs → m.cur.holds a = true → m1.sock a = m.sock a := by
       intro a hac hah
       rw [← hm1]
       exact keeps_sock_run _ hg.inv (by simp [Keeps, hg.idle, hah]) (keepsAct_reload hac)
     rw [hm1] at g1 hgen haddrs hbusy
     have hres : resOf m1 g = "ok" := by simp [resOf, hgen]
-    obtain ⟨o1, o2, o3, o4⟩ := observe_good seen "ok" g1
-    obtain ⟨n1, l1, hl1, hl1m⟩ := rename_named seen m1 1
-    obtain ⟨n2, l2, hl2, hl2m⟩ := rename_named (rename seen m1 1).1 m1 2
-    have law1 := addrLaw_ok (busy := busy) (seen := seen) (seen1 := seen) (led := led) (a := 1) (prevSk := led.prev.sk1)
-      g1 hgen haddrs h.addrs hg h.sk1 (hks 1)
-    have law2 := addrLaw_ok (busy := busy) (seen := seen) (seen1 := (rename seen m1 1).1) (led := led) (a := 2)
-      (prevSk := led.prev.sk2) g1 hgen haddrs h.addrs hg (by rw [hl1]; exact named_ext l1 h.sk2) (hks 2)
-    have hobs : (runOp g seen m (.reload c)).2.2 =
-        { res := "ok", fd1 := m1.fds 1, fd2 := m1.fds 2, sk1 := (rename seen m1 1).2,
-          sk2 := (rename (rename seen m1 1).1 m1 2).2, p1 := answerOf m1 1, p2 := answerOf m1 2, mid := none, str := none } := by
-      simp only [runOp, hm1, hres, o1]
-    have hseen : (runOp g seen m (.reload c)).2.1 = (rename (rename seen m1 1).1 m1 2).1 := by
-      simp only [runOp, hm1, hres, o2]
-    have hstate : (runOp g seen m (.reload c)).1 = (observe seen m1 "ok" none none).1 := by
-      simp only [runOp, hm1, hres]
-    rw [hobs, hseen, hstate]
-    constructor
-    · simp only [stepLaw, HOp.cfg, hv, h.next, law1, law2]
-      simp
-    · have hadv : advance busy led (.reload c) { res := "ok", fd1 := m1.fds 1, fd2 := m1.fds 2, sk1 := (rename seen m1 1).2, sk2 := (rename (rename seen m1 1).1 m1 2).2, p1 := answerOf m1 1, p2 := answerOf m1 2, mid := none, str := none }
-          = { gen := led.next, addrs := c.addrs, prev := { res := "ok", fd1 := m1.fds 1, fd2 := m1.fds 2, sk1 := (rename seen m1 1).2, sk2 := (rename (rename seen m1 1).1 m1 2).2, p1 := answerOf m1 1, p2 := answerOf m1 2, mid := none, str := none }, next := led.next + 1 } := by
-        simp [advance, HOp.cfg, hv]
-      rw [hadv]
-      have n1' : NamedIn (rename (rename seen m1 1).1 m1 2).1 m1 1 (rename seen m1 1).2 := by
-        rw [hl2]; exact named_ext l2 n1
-      refine ⟨o3, by rw [o4.busy, hbusy]; exact h.busyEq, by rw [o4.cur, hgen]; exact h.next,
-        by rw [o4.cur, haddrs], by simp [h.next], by rw [o4.cur, hgen]; omega,
-        by rw [o4.fds], by rw [o4.fds],
-        by simp [answerOf, o4.cur], by simp [answerOf, o4.cur],
-        named_congr (m := m1) (by rw [o4.fds]) (by rw [o4.sock]) n1',
-        named_congr (m := m1) (by rw [o4.fds]) (by rw [o4.sock]) n2, ?_,
-        fun a ha => by rw [o4.sock, o4.nextSock]; exact hsl a ha⟩
-      intro x hx
-      rw [o4.nextSock]
-      rw [hl2, hl1] at hx
-      rcases List.mem_append.mp hx with hx | hx
-      · rcases List.mem_append.mp hx with hx | hx
-        · exact Nat.lt_of_lt_of_le (h.seenLt x hx) hsr.next
-        · rw [hl1m x hx]; exact hsl 1 (Or.inl rfl)
-      · rw [hl2m x hx]; exact hsl 2 (Or.inr rfl)
+    have := judge_valid h (.reload c) hv g1 hgen haddrs hbusy hks hsl hsr.next none none ⟨rfl, rfl⟩
+    simpa only [runOp, hm1, hres] using this
 
-open Casket.ReloadSpec
-
-theorem runOps_check {busy : List Nat} : ∀ (hops : List HOp) (m : M) (seen : List Nat) (g : Nat) (led : HLedger),
-    HRel busy m seen g led → (∀ op ∈ hops, ∃ c, op = .reload c) →
-    checkFrom busy led hops (runOps g seen m hops) = none := by
-  intro hops
-  induction hops with
-  | nil => intro m seen g led _ _; rfl
-  | cons op rest ih =>
-    intro m seen g led h hall
-    obtain ⟨c, rfl⟩ := hall op List.mem_cons_self
-    obtain ⟨h1, h2⟩ := reload_op_ok h c
-    simp only [runOps, checkFrom, h1]
-    exact ih _ _ _ _ h2 (fun o ho => hall o (List.mem_cons_of_mem _ ho))
 
 /-- the observation of a freshly started process and the ledger the judge starts from -/
 theorem start_ok {busy : List Nat} {c0 : Cfg} (hfree : ∀ a ∈ c0.addrs, busy.contains a = false) :
@@ -1018,7 +1044,7 @@ theorem start_ok {busy : List Nat} {c0 : Cfg} (hfree : ∀ a ∈ c0.addrs, busy.
   have hsl : ∀ a, a = 1 ∨ a = 2 → m1.sock a < m1.nextSock := by
     rw [← hm1]; intro a ha
     rcases ha with rfl | rfl <;> simp [M.init]
-  obtain ⟨o1, o2, o3, o4⟩ := observe_good [] "ok" g1
+  obtain ⟨o1, o2, o3, o4⟩ := observe_good [] "ok" none none g1
   obtain ⟨n1, l1, hl1, hl1m⟩ := rename_named [] m1 1
   obtain ⟨n2, l2, hl2, hl2m⟩ := rename_named (rename [] m1 1).1 m1 2
   -- the start law is the address law against an empty previous state
@@ -1051,5 +1077,510 @@ theorem start_ok {busy : List Nat} {c0 : Cfg} (hfree : ∀ a ∈ c0.addrs, busy.
       · rw [hl1m x hx]; exact hsl 1 (Or.inl rfl)
     · rw [hl2m x hx]; exact hsl 2 (Or.inr rfl)
 
+open Casket.ReloadSpec
+
+theorem reloadHead_split_pre (g : Nat) (m : M) (c : Cfg) :
+    run m (reloadHead g m c) =
+      run (run (step (run (run m [.begin g c, .setup]) (List.replicate c.addrs.length .listen)) .listen)
+        [.serve, .stopOld]) (List.replicate m.cur.addrs.length .stop) := by
+  simp only [reloadHead, run_append, List.replicate_succ', run]
+
+/-- the state just before a valid reload returns: the old instance holds nothing any more, the new one serves -/
+structure PreFinish (m md : M) (g : Nat) (c : Cfg) : Prop where
+  inv : Inv md
+  phase : md.phase = .stopping []
+  newGen : md.new.gen = g
+  newAddrs : md.new.addrs = c.addrs
+  newHolds : ∀ a, md.new.holds a = c.addrs.contains a
+  newAccepts : ∀ a, md.new.accepts a = md.new.holds a
+  curHolds : ∀ a, md.cur.holds a = false
+  queue : ∀ a, md.queue a = []
+  busy : md.busy = m.busy
+  conns : md.conns = m.conns
+  nextConn : md.nextConn = m.nextConn
+
+theorem reload_valid_pre {m : M} {g : Nat} {c : Cfg} (hg : Good m) (hgen : m.cur.gen < g) (hv : valid m.busy c = true) :
+    PreFinish m (run m (reloadHead g m c)) g c := by
+  simp only [valid, Bool.and_eq_true, Bool.not_eq_true', List.all_eq_true] at hv
+  obtain ⟨hf, hfree⟩ := hv
+  rw [reloadHead_split_pre]
+  -- begin, setup
+  have ea := begin_setup_ok (c := c) hg.idle hgen hf
+  have hinva : Inv (run m [.begin g c, .setup]) := inv_run _ hg.inv
+  rw [ea] at hinva ⊢
+  generalize hma : ({ m with phase := Phase.listening c.addrs, new := { gen := g, addrs := c.addrs, holds := fun _ => false, accepts := fun _ => false } } : M) = ma at hinva ⊢
+  have ha_phase : ma.phase = .listening c.addrs := by rw [← hma]
+  have ha_cur : ma.cur = m.cur := by rw [← hma]
+  have ha_busy : ma.busy = m.busy := by rw [← hma]
+  have ha_conns : ma.conns = m.conns := by rw [← hma]
+  have ha_next : ma.nextConn = m.nextConn := by rw [← hma]
+  have ha_queue : ∀ a, ma.queue a = [] := by rw [← hma]; exact hg.queue
+  have ha_newh : ∀ a, ma.new.holds a = false := by rw [← hma]; intro _; rfl
+  have ha_newg : ma.new.gen = g := by rw [← hma]
+  have ha_newa : ma.new.addrs = c.addrs := by rw [← hma]
+  -- the listen loop
+  obtain ⟨l1, l2, l3, _, _, l6, l7, l8, l9⟩ := listen_ok_loop c.addrs ma hinva ha_phase ha_queue
+    (fun a ha => Or.inl (by rw [ha_busy]; simpa using hfree a ha))
+  generalize hmb0 : run ma (List.replicate c.addrs.length .listen) = mb0 at l1 l2 l3 l6 l7 l8 l9 ⊢
+  have eb : step mb0 .listen = { mb0 with phase := .listened } := by simp [step, l1]
+  rw [eb]
+  -- serve, stopOld
+  have ec : run ({ mb0 with phase := Phase.listened } : M) [.serve, .stopOld] =
+      { mb0 with new := { mb0.new with accepts := mb0.new.holds }, phase := .stopping mb0.cur.addrs, served := mb0.served ++ [mb0.new.gen] } := by
+    simp [run, step]
+  rw [ec]
+  generalize hmc : ({ mb0 with new := { mb0.new with accepts := mb0.new.holds }, phase := Phase.stopping mb0.cur.addrs, served := mb0.served ++ [mb0.new.gen] } : M) = mc
+  have hc_phase : mc.phase = .stopping m.cur.addrs := by rw [← hmc, l3, ha_cur]
+  have hc_inv : Inv mc := by
+    have : mc = run m ([.begin g c, .setup] ++ List.replicate c.addrs.length .listen ++ [.listen] ++ [.serve, .stopOld]) := by
+      simp only [run_append, ea, hma, hmb0]
+      rw [show run mb0 [Act.listen] = step mb0 .listen from rfl, eb, ec, hmc]
+    rw [this]; exact inv_run _ hg.inv
+  have hc_queue : ∀ a, mc.queue a = [] := by rw [← hmc]; exact l2.queue
+  obtain ⟨s1, s2, s3, _, _⟩ := stop_loop m.cur.addrs mc hc_inv hc_phase hc_queue
+  generalize hmd : run mc (List.replicate m.cur.addrs.length .stop) = md at s1 s2 s3 ⊢
+  have hd_inv : Inv md := by rw [← hmd]; exact inv_run _ hc_inv
+  have hnew : md.new = { mb0.new with accepts := mb0.new.holds } := by rw [s3, ← hmc]
+  have hholds : ∀ a, md.new.holds a = c.addrs.contains a := by
+    intro a; rw [hnew]; show mb0.new.holds a = _; rw [l9 a, ha_newh a]; simp
+  refine ⟨hd_inv, s1, ?_, ?_, hholds, ?_, ?_, s2.queue, ?_, ?_, ?_⟩
+  · rw [hnew]; show mb0.new.gen = g; rw [l6, ha_newg]
+  · rw [hnew]; show mb0.new.addrs = c.addrs; rw [l7, ha_newa]
+  · intro a; rw [hnew]
+  · intro a
+    cases hc : md.cur.holds a
+    · rfl
+    · have := hd_inv.stopTodo [] s1 a hc; simp at this
+  · rw [s2.busy, ← hmc]; show mb0.busy = m.busy; rw [l2.busy, ha_busy]
+  · rw [s2.conns, ← hmc]; show mb0.conns = m.conns; rw [l2.conns, ha_conns]
+  · rw [s2.nextConn, ← hmc]; show mb0.nextConn = m.nextConn; rw [l2.nextConn, ha_next]
+
+open Casket.ReloadSpec
+
+theorem reload_invalid_pre {m : M} {g : Nat} {c : Cfg} (hg : Good m) (hgen : m.cur.gen < g) (hv : valid m.busy c = false) :
+    Good (run m (reloadHead g m c)) ∧
+    (run m (reloadHead g m c)).cur = m.cur ∧
+    (run m (reloadHead g m c)).busy = m.busy ∧
+    (run m (reloadHead g m c)).conns = m.conns ∧
+    (run m (reloadHead g m c)).nextConn = m.nextConn ∧
+    (∀ a, m.cur.holds a = true → (run m (reloadHead g m c)).sock a = m.sock a) := by
+  have hinvAll : Inv (run m (reloadHead g m c)) := inv_run _ hg.inv
+  have hsplit : run m (reloadHead g m c) =
+      run (run (run m [.begin g c, .setup]) (List.replicate (c.addrs.length + 1) .listen))
+        ([.serve, .stopOld] ++ List.replicate m.cur.addrs.length .stop) := by
+    simp only [reloadHead, run_append, List.append_assoc]
+  have htail : ∀ a ∈ [Act.serve, Act.stopOld] ++ List.replicate m.cur.addrs.length Act.stop, internal a = true := by
+    intro a ha
+    simp only [List.mem_append, List.mem_replicate, List.mem_cons, List.mem_singleton, List.not_mem_nil, or_false] at ha
+    rcases ha with (rfl | rfl) | ⟨_, rfl⟩ <;> rfl
+  have hlis : ∀ a ∈ List.replicate (c.addrs.length + 1) Act.listen, internal a = true := by
+    intro a ha; simp only [List.mem_replicate] at ha; rw [ha.2]; rfl
+  -- in both cases the run ends idle with the current instance untouched
+  have key : ∃ mf, run m (reloadHead g m c) = mf ∧ mf.phase = .idle ∧ mf.cur = m.cur ∧ mf.busy = m.busy ∧
+      mf.conns = m.conns ∧ mf.nextConn = m.nextConn ∧ (∀ a, mf.queue a = []) ∧
+      (∀ a, m.cur.holds a = true → mf.sock a = m.sock a) := by
+    rw [hsplit]
+    cases hfs : c.failSetup
+    · -- some address is in use
+      have hbad : ∃ a ∈ c.addrs, m.busy.contains a = true ∧ m.cur.holds a = false := by
+        simp only [valid, hfs, Bool.not_false, Bool.true_and] at hv
+        rw [List.all_eq_false] at hv
+        obtain ⟨a, ha, hb⟩ := hv
+        have hb' : m.busy.contains a = true := by simpa using hb
+        refine ⟨a, ha, hb', ?_⟩
+        cases hc : m.cur.holds a
+        · rfl
+        · have := hg.notBusy a hc; rw [hb'] at this; exact Bool.noConfusion this
+      have ea := begin_setup_ok (c := c) hg.idle hgen hfs
+      have hinva : Inv (run m [.begin g c, .setup]) := inv_run _ hg.inv
+      rw [ea] at hinva ⊢
+      generalize hma : ({ m with phase := Phase.listening c.addrs, new := { gen := g, addrs := c.addrs, holds := fun _ => false, accepts := fun _ => false } } : M) = ma at hinva ⊢
+      have ha_phase : ma.phase = .listening c.addrs := by rw [← hma]
+      have ha_cur : ma.cur = m.cur := by rw [← hma]
+      have ha_busy : ma.busy = m.busy := by rw [← hma]
+      have ha_conns : ma.conns = m.conns := by rw [← hma]
+      have ha_next : ma.nextConn = m.nextConn := by rw [← hma]
+      have ha_sock : ma.sock = m.sock := by rw [← hma]
+      have ha_queue : ∀ a, ma.queue a = [] := by rw [← hma]; exact hg.queue
+      obtain ⟨f1, f2, f3, _⟩ := listen_fail_loop c.addrs ma (c.addrs.length + 1) hinva ha_phase ha_queue
+        (fun a ha => by rw [← hma] at ha; exact Bool.noConfusion ha)
+        (by rw [ha_busy, ha_cur]; exact hbad) (Nat.le_succ _)
+      have hs := fun a (h : m.cur.holds a = true) => listen_run_sock (c.addrs.length + 1) ma a (by rw [ha_cur]; exact h)
+      rw [run_idle_noop f1 _ htail]
+      exact ⟨_, rfl, f1, f3.trans ha_cur, f2.busy.trans ha_busy, f2.conns.trans ha_conns, f2.nextConn.trans ha_next,
+        f2.queue, fun a h => by rw [hs a h, ha_sock]⟩
+    · rw [begin_setup_fail (c := c) hg.idle hgen hfs]
+      rw [run_idle_noop (m := { m with phase := Phase.idle, events := m.events ++ [Ev.reloadFailed] }) rfl _ hlis]
+      rw [run_idle_noop (m := { m with phase := Phase.idle, events := m.events ++ [Ev.reloadFailed] }) rfl _ htail]
+      exact ⟨_, rfl, rfl, rfl, rfl, rfl, rfl, hg.queue, fun _ _ => rfl⟩
+  obtain ⟨mf, e, h1, h2, h3, h4, h5, h6, h7⟩ := key
+  rw [e] at hinvAll ⊢
+  refine ⟨⟨hinvAll, h1, ?_, ?_, h6, ?_, ?_⟩, h2, h3, h4, h5, h7⟩
+  · intro a; rw [h2]; exact hg.holds a
+  · intro a; rw [h2]; exact hg.accepts a
+  · intro a ha; rw [h2] at ha; rw [h3]; exact hg.notBusy a ha
+  · intro x hx; rw [h4] at hx; rw [h5]; exact hg.connIds x hx
+
+open Casket.ReloadSpec
+
+/-! ### the request in flight -/
+
+/-- the first half of a request in flight: the connection is made and the current instance accepts it -/
+theorem straddle_begin_held {m : M} (hg : Good m) (h1 : m.cur.holds 1 = true) :
+    run m [.connect 1, .accept m.cur.gen 1] =
+      { m with queue := upd (upd m.queue 1 [m.nextConn]) 1 [], nextConn := m.nextConn + 1, conns := m.conns ++ [{ id := m.nextConn, addr := 1, minGen := m.cur.gen, owner := some m.cur.gen, answered := none }] } := by
+  have hf : m.fds 1 = 1 := by rw [good_fds hg 1, h1]; rfl
+  have hacc : m.cur.accepts 1 = true := by rw [hg.accepts 1, h1]
+  have hq := hg.queue 1
+  simp only [run, step, hf, hq, List.nil_append, upd_app, if_true, hacc, Bool.and_true, decide_true, Bool.true_or,
+    gt_iff_lt, Nat.zero_lt_one]
+  have h1' := setOwner_lt (g := m.cur.gen) hg.connIds
+  simp only [setOwner, List.map_append, List.map_cons, List.map_nil, if_true] at h1' ⊢
+  rw [h1']
+
+theorem straddle_begin_free {m : M} (hg : Good m) (h1 : m.cur.holds 1 = false) :
+    run m [.connect 1, .accept m.cur.gen 1] = { m with events := m.events ++ [Ev.refused 1] } := by
+  have hf : m.fds 1 = 0 := by rw [good_fds hg 1, h1]; rfl
+  have hq := hg.queue 1
+  simp only [run, step, hf, hq, Nat.lt_irrefl, gt_iff_lt, if_false]
+
+theorem good_frame {m m' : M} (hg : Good m) (hinv : Inv m') (hphase : m'.phase = m.phase) (hcur : m'.cur = m.cur)
+    (hbusy : m'.busy = m.busy) (hq : ∀ a, m'.queue a = []) (hids : ∀ c ∈ m'.conns, c.id < m'.nextConn) : Good m' :=
+  ⟨hinv, by rw [hphase]; exact hg.idle, by rw [hcur]; exact hg.holds, by rw [hcur]; exact hg.accepts, hq,
+   by rw [hcur, hbusy]; exact hg.notBusy, hids⟩
+
+theorem mem_setAnswered_id {cs : List Conn} {id : Nat} {c : Conn} (h : c ∈ setAnswered cs id) : ∃ c0 ∈ cs, c.id = c0.id := by
+  simp only [setAnswered, List.mem_map] at h
+  obtain ⟨c0, hc0, e⟩ := h
+  refine ⟨c0, hc0, ?_⟩
+  split at e <;> subst e <;> rfl
+
+/-- answering a connection keeps a settled state settled -/
+theorem good_respond {m : M} (hg : Good m) (id : Nat) : Good (step m (.respond id)) ∧ ProbeFrame m (step m (.respond id)) := by
+  refine ⟨good_frame hg (inv_step hg.inv _) rfl rfl rfl hg.queue ?_, ⟨rfl, rfl, rfl, rfl, rfl⟩⟩
+  intro c hc
+  obtain ⟨c0, hc0, e⟩ := mem_setAnswered_id (by simpa [step] using hc)
+  show c.id < m.nextConn
+  rw [e]; exact hg.connIds c0 hc0
+
+/-- the connection in flight, at position `C.length` of the list, is answered by its owner -/
+theorem straddler_answer (C P : List Conn) (s : Conn) (sid k : Nat) (hs : s.id = sid)
+    (hown : s.owner = some k) :
+    ((setAnswered (C ++ s :: P) sid)[C.length]?).map (·.answered) = some (some k) := by
+  simp only [setAnswered, List.map_append, List.map_cons]
+  rw [List.getElem?_append_right (by simp)]
+  simp [hs, hown]
+
+/-- explicit state after a probe of an address the settled current instance serves -/
+theorem probe_held_state {m : M} {a : Nat} (hg : Good m) (ha : m.cur.holds a = true) :
+    (probe m a).1 = { m with queue := upd (upd m.queue a [m.nextConn]) a [], nextConn := m.nextConn + 1, conns := m.conns ++ [{ id := m.nextConn, addr := a, minGen := m.cur.gen, owner := some m.cur.gen, answered := some m.cur.gen }] } := by
+  have hna : m.new.accepts a = false := (hg.inv.inactive (by simp [hg.idle, active])).2 a
+  have hf : m.fds a = 1 := by rw [good_fds hg a, ha]; rfl
+  have hacc : m.cur.accepts a = true := by rw [hg.accepts a, ha]
+  have hq := hg.queue a
+  simp only [probe, hna, Bool.false_eq_true, if_false, run, step, hf, hq, List.nil_append, upd_app, if_true,
+    hacc, Bool.and_true, decide_true, Bool.true_or, Nat.lt_irrefl, gt_iff_lt, Nat.zero_lt_one]
+  simp only [setOwner, setAnswered, List.map_append, List.map_map, List.map_cons, List.map_nil, if_true]
+  have h1 := setOwner_lt (g := m.cur.gen) hg.connIds
+  have h2 := setAnswered_lt hg.connIds
+  simp only [setOwner] at h1
+  simp only [setAnswered] at h2
+  rw [← List.map_map, h1, h2]
+
+theorem probe_free_state {m : M} {a : Nat} (hg : Good m) (ha : m.cur.holds a = false) :
+    (probe m a).1 = { m with events := m.events ++ [Ev.refused a] } := by
+  have hna : m.new.accepts a = false := (hg.inv.inactive (by simp [hg.idle, active])).2 a
+  have hf : m.fds a = 0 := by rw [good_fds hg a, ha]; rfl
+  have hq := hg.queue a
+  simp only [probe, hna, Bool.false_eq_true, if_false, run, step, hf, hq, Nat.lt_irrefl, gt_iff_lt]
+  rw [setAnswered_lt hg.connIds]
+
+/-- after a probe the connections made before are still there, unchanged, at the same positions -/
+theorem probe_conns_prefix {m : M} (a : Nat) (hg : Good m) : ∃ P, (probe m a).1.conns = m.conns ++ P ∧ ∀ p ∈ P, p.id = m.nextConn := by
+  cases ha : m.cur.holds a
+  · exact ⟨[], by rw [probe_free_state hg ha]; simp, by simp⟩
+  · exact ⟨[_], by rw [probe_held_state hg ha], by simp⟩
+
+open Casket.ReloadSpec
+
+theorem connAnswer_of {m : M} {idx k : Nat} (h : (m.conns[idx]?).map (·.answered) = some (some k)) :
+    connAnswer m idx = toString k := by
+  unfold connAnswer
+  cases hc : m.conns[idx]? with
+  | none => simp [hc] at h
+  | some c => simp [hc] at h; simp [h]
+
+theorem led_contains_one {busy : List Nat} {m : M} {seen : List Nat} {g : Nat} {led : HLedger} (h : HRel busy m seen g led) :
+    led.addrs.contains 1 = m.cur.holds 1 := by rw [h.addrs, h.good.holds 1]
+
+/-- a reload with a request in flight whose configuration is not valid for the environment -/
+theorem straddle_invalid {busy : List Nat} {m : M} {seen : List Nat} {g : Nat} {led : HLedger} (h : HRel busy m seen g led)
+    (c : Cfg) (hv : valid busy c = false) :
+    stepLaw busy led (.straddle c) (runOp g seen m (.straddle c)).2.2 = none ∧
+    HRel busy (runOp g seen m (.straddle c)).1 (runOp g seen m (.straddle c)).2.1 (g + 1)
+      (advance busy led (.straddle c) (runOp g seen m (.straddle c)).2.2) := by
+  have hg := h.good
+  have hlc := led_contains_one h
+  -- whatever the first half of the request in flight did, the state m0 is settled and differs from m in connections only
+  have key0 : ∃ m0, run m [.connect 1, .accept m.cur.gen 1] = m0 ∧ Good m0 ∧ m0.cur = m.cur ∧ m0.busy = m.busy ∧
+      m0.sock = m.sock ∧ m0.nextSock = m.nextSock ∧
+      ((m.cur.holds 1 = false ∧ m0.conns = m.conns ∧ m0.nextConn = m.nextConn) ∨
+       (m.cur.holds 1 = true ∧ m0.nextConn = m.nextConn + 1 ∧
+        m0.conns = m.conns ++ [{ id := m.nextConn, addr := 1, minGen := m.cur.gen, owner := some m.cur.gen, answered := none }])) := by
+    cases h1 : m.cur.holds 1
+    · refine ⟨_, straddle_begin_free hg h1, ?_, rfl, rfl, rfl, rfl, Or.inl ⟨rfl, rfl, rfl⟩⟩
+      have hinv : Inv (run m [.connect 1, .accept m.cur.gen 1]) := inv_run _ hg.inv
+      rw [straddle_begin_free hg h1] at hinv
+      exact good_frame hg hinv rfl rfl rfl hg.queue hg.connIds
+    · refine ⟨_, straddle_begin_held hg h1, ?_, rfl, rfl, rfl, rfl, Or.inr ⟨rfl, rfl, rfl⟩⟩
+      have hinv : Inv (run m [.connect 1, .accept m.cur.gen 1]) := inv_run _ hg.inv
+      rw [straddle_begin_held hg h1] at hinv
+      refine good_frame hg hinv rfl rfl rfl (fun x => ?_) (fun x hx => ?_)
+      · show upd (upd m.queue 1 [m.nextConn]) 1 [] x = []
+        simp only [upd_app]; split <;> simp [hg.queue]
+      · show x.id < m.nextConn + 1
+        rcases List.mem_append.mp hx with hx | hx
+        · have := hg.connIds x hx; omega
+        · simp only [List.mem_singleton] at hx; subst hx; exact Nat.lt_succ_self _
+  obtain ⟨m0, e0, g0, hcur0, hbusy0, hsock0, hns0, hconn⟩ := key0
+  have hlt0 : m0.cur.gen < g := by rw [hcur0]; exact h.lt
+  obtain ⟨gd, hcurd, hbusyd, hconnsd, hnextd, hsockd⟩ := reload_invalid_pre (g := g) (c := c) g0 hlt0
+    (by rw [hbusy0, h.busyEq]; exact hv)
+  generalize hmd : run m0 (reloadHead g m0 c) = md at gd hcurd hbusyd hconnsd hnextd hsockd
+  have hsrd : SockRel m0 md := by rw [← hmd]; exact sockRel_run _ m0
+  have hsld : ∀ a, a = 1 ∨ a = 2 → md.sock a < md.nextSock := by
+    intro a ha; rw [← hmd]; exact sockLt_run _ a (by rw [hsock0, hns0]; exact h.sockLt a ha)
+  obtain ⟨qa, qg, qf⟩ := probe_good 1 gd
+  obtain ⟨P, hP, hPid⟩ := probe_conns_prefix 1 gd
+  have hmid : (probe md 1).2 = answerOf m 1 := by rw [qa]; simp [answerOf, hcurd, hcur0]
+  -- the rest: answer the request in flight (if any), `finish` is a no-op
+  have hidle : ∀ x : M, Good x → step x .finish = x := fun x hx => step_idle_noop hx.idle rfl
+  have common : ∀ (m3 : M) (str : String), Good m3 → ProbeFrame (probe md 1).1 m3 →
+      str = (if led.addrs.contains 1 then toString led.gen else "-") →
+      stepLaw busy led (.straddle c) (observe seen m3 "err" (some (answerOf m 1)) (some str)).2.2 = none ∧
+      HRel busy (observe seen m3 "err" (some (answerOf m 1)) (some str)).1
+        (observe seen m3 "err" (some (answerOf m 1)) (some str)).2.1 (g + 1)
+        (advance busy led (.straddle c) (observe seen m3 "err" (some (answerOf m 1)) (some str)).2.2) := by
+    intro m3 str g3 f3 hstr
+    have fr := probeFrame_trans qf f3
+    refine judge_invalid h (.straddle c) hv g3 (by rw [fr.cur, hcurd, hcur0]) (by rw [fr.busy, hbusyd, hbusy0])
+      (fun a ha => by rw [fr.sock, hsockd a (by rw [hcur0]; exact ha), hsock0])
+      (fun a ha => by rw [fr.sock, fr.nextSock]; exact hsld a ha)
+      (by rw [fr.nextSock, ← hns0]; exact hsrd.next) _ _ ⟨by rw [hstr], by rw [h.p1]; simp⟩
+  have hres : ∀ m3 : M, m3.cur = m.cur → resOf m3 g = "err" := by
+    intro m3 hc
+    have : ¬ m3.cur.gen = g := by rw [hc]; have := h.lt; omega
+    simp [resOf, this]
+  rcases hconn with ⟨h1, hc0, hn0⟩ | ⟨h1, hn0, hc0⟩
+  · -- the connection was refused: nothing in flight
+    have hnc : (m0.conns.length != m.conns.length) = false := by rw [hc0]; simp
+    have hfin : step (probe md 1).1 .finish = (probe md 1).1 := hidle _ qg
+    have := common (probe md 1).1 "-" qg ⟨rfl, rfl, rfl, rfl, rfl⟩ (by rw [hlc, h1]; rfl)
+    have hr := hres (probe md 1).1 (by rw [qf.cur, hcurd, hcur0])
+    simpa only [runOp, e0, hnc, hmd, Bool.false_eq_true, if_false, hfin, hr, hmid] using this
+  · -- the current instance accepted it; it answers it after the failed reload
+    have hnc : (m0.conns.length != m.conns.length) = true := by rw [hc0]; simp
+    obtain ⟨rg, rf⟩ := good_respond qg m.nextConn
+    have hfin : step (step (probe md 1).1 (.respond m.nextConn)) .finish = step (probe md 1).1 (.respond m.nextConn) :=
+      hidle _ rg
+    have hstr : connAnswer (step (probe md 1).1 (.respond m.nextConn)) m.conns.length = toString m.cur.gen := by
+      apply connAnswer_of
+      show ((setAnswered (probe md 1).1.conns m.nextConn)[m.conns.length]?).map (·.answered) = _
+      rw [hP, hconnsd, hc0, List.append_assoc, List.singleton_append]
+      exact straddler_answer m.conns P _ m.nextConn m.cur.gen rfl rfl
+    have := common (step (probe md 1).1 (.respond m.nextConn)) (toString m.cur.gen) rg rf
+      (by rw [hlc, h1, h.gen]; rfl)
+    have hr := hres (step (probe md 1).1 (.respond m.nextConn)) (by rw [rf.cur, qf.cur, hcurd, hcur0])
+    simpa only [runOp, e0, hnc, hmd, if_true, hfin, hr, hmid, hstr] using this
+
+open Casket.ReloadSpec
+
+/-- a fresh connection made just before a valid reload returns: the NEW instance answers it (or nobody listens any more) -/
+theorem probe_pre_served {m0 md : M} {g : Nat} {c : Cfg} (h : PreFinish m0 md g c)
+    (hids : ∀ x ∈ md.conns, x.id < md.nextConn) (h1 : c.addrs.contains 1 = true) :
+    probe md 1 = ({ md with queue := upd (upd md.queue 1 [md.nextConn]) 1 [], nextConn := md.nextConn + 1, conns := md.conns ++ [{ id := md.nextConn, addr := 1, minGen := md.cur.gen, owner := some g, answered := some g }] }, toString g) := by
+  have hnh : md.new.holds 1 = true := by rw [h.newHolds 1, h1]
+  have hna : md.new.accepts 1 = true := by rw [h.newAccepts 1, hnh]
+  have hf : md.fds 1 = 1 := by have := h.inv.acc 1; rw [h.curHolds 1, hnh] at this; simpa [b2n] using this
+  have hq := h.queue 1
+  have hgen := h.newGen
+  have e : (probe md 1).1 = { md with queue := upd (upd md.queue 1 [md.nextConn]) 1 [], nextConn := md.nextConn + 1, conns := md.conns ++ [{ id := md.nextConn, addr := 1, minGen := md.cur.gen, owner := some g, answered := some g }] } := by
+    simp only [probe, hna, if_true, run, step, hf, hq, List.nil_append, upd_app, hgen, Bool.and_true, decide_true,
+      Bool.or_true, gt_iff_lt, Nat.zero_lt_one]
+    simp only [setOwner, setAnswered, List.map_append, List.map_map, List.map_cons, List.map_nil, if_true]
+    have h1' := setOwner_lt (g := g) hids
+    have h2' := setAnswered_lt hids
+    simp only [setOwner] at h1'
+    simp only [setAnswered] at h2'
+    rw [← List.map_map, h1', h2']
+  refine Prod.ext e ?_
+  show connAnswer (probe md 1).1 md.conns.length = toString g
+  rw [e]
+  simp [connAnswer]
+
+theorem probe_pre_gone {m0 md : M} {g : Nat} {c : Cfg} (h : PreFinish m0 md g c)
+    (hids : ∀ x ∈ md.conns, x.id < md.nextConn) (h1 : c.addrs.contains 1 = false) :
+    probe md 1 = ({ md with events := md.events ++ [Ev.refused 1] }, "-") := by
+  have hnh : md.new.holds 1 = false := by rw [h.newHolds 1, h1]
+  have hna : md.new.accepts 1 = false := by rw [h.newAccepts 1, hnh]
+  have hf : md.fds 1 = 0 := by have := h.inv.acc 1; rw [h.curHolds 1, hnh] at this; simpa [b2n] using this
+  have hq := h.queue 1
+  have e : (probe md 1).1 = { md with events := md.events ++ [Ev.refused 1] } := by
+    simp only [probe, hna, Bool.false_eq_true, if_false, run, step, hf, hq, Nat.lt_irrefl, gt_iff_lt]
+    rw [setAnswered_lt hids]
+  refine Prod.ext e ?_
+  show connAnswer (probe md 1).1 md.conns.length = "-"
+  rw [e]
+  simp [connAnswer]
+
+open Casket.ReloadSpec
+
+/-- `finish` from a state in which the new instance serves and the old one holds nothing gives a settled state -/
+theorem finish_good {m2 : M} {g : Nat} {c : Cfg} {busy : List Nat} (hinv : Inv m2) (hp : m2.phase = .stopping [])
+    (hgen : m2.new.gen = g) (haddrs : m2.new.addrs = c.addrs) (hholds : ∀ a, m2.new.holds a = c.addrs.contains a)
+    (hacc : ∀ a, m2.new.accepts a = m2.new.holds a) (hq : ∀ a, m2.queue a = []) (hbusy : m2.busy = busy)
+    (hids : ∀ x ∈ m2.conns, x.id < m2.nextConn) (hfree : ∀ a ∈ c.addrs, busy.contains a = false) :
+    Good (step m2 .finish) ∧ (step m2 .finish).cur.gen = g ∧ (step m2 .finish).cur.addrs = c.addrs ∧
+    (step m2 .finish).busy = busy ∧ (step m2 .finish).sock = m2.sock ∧ (step m2 .finish).nextSock = m2.nextSock := by
+  have hinv' := inv_step hinv .finish
+  have e : step m2 .finish = { m2 with cur := m2.new, new := Inst.none, phase := .idle, events := m2.events ++ [Ev.reloadOk m2.new.gen] } := by
+    simp [step, hp]
+  rw [e] at hinv' ⊢
+  refine ⟨⟨hinv', rfl, ?_, hacc, hq, ?_, hids⟩, hgen, haddrs, hbusy, rfl, rfl⟩
+  · intro a; show m2.new.holds a = m2.new.addrs.contains a; rw [hholds a, haddrs]
+  · intro a ha
+    change m2.new.holds a = true at ha
+    rw [hholds a] at ha
+    show m2.busy.contains a = false
+    rw [hbusy]; exact hfree a (by simpa using ha)
+
+/-- a reload with a request in flight whose configuration is valid for the environment -/
+theorem straddle_valid {busy : List Nat} {m : M} {seen : List Nat} {g : Nat} {led : HLedger} (h : HRel busy m seen g led)
+    (c : Cfg) (hv : valid busy c = true) :
+    stepLaw busy led (.straddle c) (runOp g seen m (.straddle c)).2.2 = none ∧
+    HRel busy (runOp g seen m (.straddle c)).1 (runOp g seen m (.straddle c)).2.1 (g + 1)
+      (advance busy led (.straddle c) (runOp g seen m (.straddle c)).2.2) := by
+  have hg := h.good
+  have hlc := led_contains_one h
+  have hfree : ∀ a ∈ c.addrs, busy.contains a = false := by
+    simp only [valid, Bool.and_eq_true, Bool.not_eq_true', List.all_eq_true] at hv
+    exact fun a ha => by simpa using hv.2 a ha
+  have key0 : ∃ m0, run m [.connect 1, .accept m.cur.gen 1] = m0 ∧ Good m0 ∧ m0.cur = m.cur ∧ m0.busy = m.busy ∧
+      m0.sock = m.sock ∧ m0.nextSock = m.nextSock ∧
+      ((m.cur.holds 1 = false ∧ m0.conns = m.conns ∧ m0.nextConn = m.nextConn) ∨
+       (m.cur.holds 1 = true ∧ m0.nextConn = m.nextConn + 1 ∧
+        m0.conns = m.conns ++ [{ id := m.nextConn, addr := 1, minGen := m.cur.gen, owner := some m.cur.gen, answered := none }])) := by
+    cases h1 : m.cur.holds 1
+    · refine ⟨_, straddle_begin_free hg h1, ?_, rfl, rfl, rfl, rfl, Or.inl ⟨rfl, rfl, rfl⟩⟩
+      have hinv : Inv (run m [.connect 1, .accept m.cur.gen 1]) := inv_run _ hg.inv
+      rw [straddle_begin_free hg h1] at hinv
+      exact good_frame hg hinv rfl rfl rfl hg.queue hg.connIds
+    · refine ⟨_, straddle_begin_held hg h1, ?_, rfl, rfl, rfl, rfl, Or.inr ⟨rfl, rfl, rfl⟩⟩
+      have hinv : Inv (run m [.connect 1, .accept m.cur.gen 1]) := inv_run _ hg.inv
+      rw [straddle_begin_held hg h1] at hinv
+      refine good_frame hg hinv rfl rfl rfl (fun x => ?_) (fun x hx => ?_)
+      · show upd (upd m.queue 1 [m.nextConn]) 1 [] x = []
+        simp only [upd_app]; split <;> simp [hg.queue]
+      · show x.id < m.nextConn + 1
+        rcases List.mem_append.mp hx with hx | hx
+        · have := hg.connIds x hx; omega
+        · simp only [List.mem_singleton] at hx; subst hx; exact Nat.lt_succ_self _
+  obtain ⟨m0, e0, g0, hcur0, hbusy0, hsock0, hns0, hconn⟩ := key0
+  have hlt0 : m0.cur.gen < g := by rw [hcur0]; exact h.lt
+  have hpre := reload_valid_pre (g := g) (c := c) g0 hlt0 (by rw [hbusy0, h.busyEq]; exact hv)
+  have hksd : ∀ a, a ∈ c.addrs → m.cur.holds a = true → (run m0 (reloadHead g m0 c)).sock a = m.sock a := by
+    intro a hac hah
+    rw [← hsock0]
+    refine keeps_sock_run _ g0.inv (by simp [Keeps, g0.idle, hcur0, hah]) ?_
+    intro act hact
+    exact keepsAct_reload (g := g) (m := m0) hac act (List.mem_append_left _ hact)
+  generalize hmd : run m0 (reloadHead g m0 c) = md at hpre hksd
+  have hsrd : SockRel m0 md := by rw [← hmd]; exact sockRel_run _ m0
+  have hsld : ∀ a, a = 1 ∨ a = 2 → md.sock a < md.nextSock := by
+    intro a ha; rw [← hmd]; exact sockLt_run _ a (by rw [hsock0, hns0]; exact h.sockLt a ha)
+  have hidsd : ∀ x ∈ md.conns, x.id < md.nextConn := by
+    rw [hpre.conns, hpre.nextConn]; exact g0.connIds
+  -- the fresh connection made while the old instance drains
+  have keyq : ∃ q1 P, probe md 1 = (q1, if c.addrs.contains 1 then toString g else "-") ∧ Inv q1 ∧
+      q1.phase = .stopping [] ∧ q1.new = md.new ∧ q1.busy = md.busy ∧ q1.sock = md.sock ∧ q1.nextSock = md.nextSock ∧
+      (∀ a, q1.queue a = []) ∧ q1.conns = md.conns ++ P ∧ (∀ x ∈ q1.conns, x.id < q1.nextConn) := by
+    have hinvq : Inv (probe md 1).1 := by simp only [probe]; exact inv_run _ hpre.inv
+    cases h1 : c.addrs.contains 1
+    · have e := probe_pre_gone hpre hidsd h1
+      rw [e] at hinvq
+      exact ⟨_, [], by rw [e]; simp, hinvq, hpre.phase, rfl, rfl, rfl, rfl, hpre.queue, by simp, hidsd⟩
+    · have e := probe_pre_served hpre hidsd h1
+      rw [e] at hinvq
+      refine ⟨_, [_], by rw [e]; simp, hinvq, hpre.phase, rfl, rfl, rfl, rfl, fun x => ?_, rfl, fun x hx => ?_⟩
+      · show upd (upd md.queue 1 [md.nextConn]) 1 [] x = []
+        simp only [upd_app]; split <;> simp [hpre.queue]
+      · show x.id < md.nextConn + 1
+        rcases List.mem_append.mp hx with hx | hx
+        · have := hidsd x hx; omega
+        · simp only [List.mem_singleton] at hx; subst hx; exact Nat.lt_succ_self _
+  obtain ⟨q1, P, eq1, qinv, qphase, qnew, qbusy, qsock, qns, qqueue, qconns, qids⟩ := keyq
+  -- from any state like q1 (possibly after answering the request in flight) `finish` gives the settled new generation
+  have common : ∀ (m2 : M) (str : String), Inv m2 → m2.phase = .stopping [] → m2.new = md.new → m2.busy = md.busy →
+      m2.sock = md.sock → m2.nextSock = md.nextSock → (∀ a, m2.queue a = []) → (∀ x ∈ m2.conns, x.id < m2.nextConn) →
+      str = (if led.addrs.contains 1 then toString led.gen else "-") →
+      stepLaw busy led (.straddle c)
+        (observe seen (step m2 .finish) "ok" (some (if c.addrs.contains 1 then toString g else "-")) (some str)).2.2 = none ∧
+      HRel busy (observe seen (step m2 .finish) "ok" (some (if c.addrs.contains 1 then toString g else "-")) (some str)).1
+        (observe seen (step m2 .finish) "ok" (some (if c.addrs.contains 1 then toString g else "-")) (some str)).2.1 (g + 1)
+        (advance busy led (.straddle c)
+          (observe seen (step m2 .finish) "ok" (some (if c.addrs.contains 1 then toString g else "-")) (some str)).2.2) ∧
+      resOf (step m2 .finish) g = "ok" := by
+    intro m2 str i2 p2 n2 b2 s2 ns2 q2 ids2 hstr
+    obtain ⟨f1, f2, f3, f4, f5, f6⟩ := finish_good (g := g) (c := c) (busy := busy) i2 p2 (by rw [n2]; exact hpre.newGen)
+      (by rw [n2]; exact hpre.newAddrs) (by rw [n2]; exact hpre.newHolds) (by rw [n2]; exact hpre.newAccepts) q2
+      (by rw [b2, hpre.busy, hbusy0]; exact h.busyEq) ids2 hfree
+    have hj := judge_valid h (.straddle c) hv f1 f2 f3 (by rw [f4]; exact h.busyEq.symm)
+      (fun a hac hah => by rw [f5, s2]; exact hksd a hac hah)
+      (fun a ha => by rw [f5, f6, s2, ns2]; exact hsld a ha)
+      (by rw [f6, ns2, ← hns0]; exact hsrd.next) (some (if c.addrs.contains 1 then toString g else "-")) (some str)
+      ⟨by rw [hstr], by simp⟩
+    exact ⟨hj.1, hj.2, by simp [resOf, f2]⟩
+  rcases hconn with ⟨h1, hc0, hn0⟩ | ⟨h1, hn0, hc0⟩
+  · have hnc : (m0.conns.length != m.conns.length) = false := by rw [hc0]; simp
+    obtain ⟨r1, r2, r3⟩ := common q1 "-" qinv qphase qnew qbusy qsock qns qqueue qids (by rw [hlc, h1]; rfl)
+    simpa only [runOp, e0, hnc, hmd, eq1, Bool.false_eq_true, if_false, r3] using And.intro r1 r2
+  · have hnc : (m0.conns.length != m.conns.length) = true := by rw [hc0]; simp
+    have e2 : step q1 (.respond m.nextConn) = { q1 with conns := setAnswered q1.conns m.nextConn } := rfl
+    have hstr : connAnswer (step q1 (.respond m.nextConn)) m.conns.length = toString m.cur.gen := by
+      apply connAnswer_of
+      show ((setAnswered q1.conns m.nextConn)[m.conns.length]?).map (·.answered) = _
+      rw [qconns, hpre.conns, hc0, List.append_assoc, List.singleton_append]
+      exact straddler_answer m.conns P _ m.nextConn m.cur.gen rfl rfl
+    have ids2 : ∀ x ∈ (step q1 (.respond m.nextConn)).conns, x.id < (step q1 (.respond m.nextConn)).nextConn := by
+      intro x hx
+      obtain ⟨c0, hc0', e⟩ := mem_setAnswered_id (by simpa [step] using hx)
+      show x.id < q1.nextConn
+      rw [e]; exact qids c0 hc0'
+    obtain ⟨r1, r2, r3⟩ := common (step q1 (.respond m.nextConn)) (toString m.cur.gen) (inv_step qinv _) qphase qnew qbusy qsock
+      qns qqueue ids2 (by rw [hlc, h1, h.gen]; rfl)
+    simpa only [runOp, e0, hnc, hmd, eq1, if_true, r3, hstr] using And.intro r1 r2
+
+
+/-- one operation of the hand-over stream, plain or with a request in flight -/
+theorem op_ok {busy : List Nat} {m : M} {seen : List Nat} {g : Nat} {led : HLedger} (h : HRel busy m seen g led) (op : HOp) :
+    stepLaw busy led op (runOp g seen m op).2.2 = none ∧
+    HRel busy (runOp g seen m op).1 (runOp g seen m op).2.1 (g + 1) (advance busy led op (runOp g seen m op).2.2) := by
+  cases op with
+  | reload c => exact reload_op_ok h c
+  | straddle c =>
+    cases hv : valid busy c
+    · exact straddle_invalid h c hv
+    · exact straddle_valid h c hv
+
+theorem runOps_check {busy : List Nat} : ∀ (hops : List HOp) (m : M) (seen : List Nat) (g : Nat) (led : HLedger),
+    HRel busy m seen g led → checkFrom busy led hops (runOps g seen m hops) = none := by
+  intro hops
+  induction hops with
+  | nil => intro m seen g led _; rfl
+  | cons op rest ih =>
+    intro m seen g led h
+    obtain ⟨h1, h2⟩ := op_ok h op
+    simp only [runOps, checkFrom, h1]
+    exact ih _ _ _ _ h2
 
 end Casket.Reload
